@@ -58,7 +58,7 @@ def body(ctx, cfg):
     ln, contiguous, total = [], [], []
     for n, p in run.procs.items():
         ap = {t[1]: g for t, g, _ in run.applied if t[0] == n}
-        prev_apply = 0       # entry time
+        prev_apply = run.g0  # entry time
         quiet_since = False
         anchor = None        # front at the first poll after a quiet run
         for q in p.polls:
@@ -84,7 +84,7 @@ def body(ctx, cfg):
             anchor = None
             prev_apply = ap.get(c['k'], prev_apply)
         if cfg['cond'] == 'none':
-            total.append(EQ(SUM([c['ts'] for c in p.ncalls]), G))
+            total.append(EQ(SUM([c['ts'] for c in p.ncalls]), G - run.g0))
     ctx.claim('C02.len', AND(ln), sig=sig, info=describe)
     ctx.claim('C02.contiguous', AND(contiguous), sig=sig, info=describe)
     ctx.claim('C02.sum', AND(total), sig=sig, info=describe)
